@@ -198,6 +198,25 @@ def special_scenarios(years=common.YEARS):
               '%d_estimated_income_tax' % (y + 1): '0.00', 'nc_nongame_endangered_wildlife': '0.00', 'nc_education_endowment': '0.00',
               'nc_breast_cervical_cancer': '0.00', 'purchases': '1234.56'}
         out.append((y, ['1040', 'nc_d-400'], 9003, dict(base, status='Single', wages=60000, overrides=nc)))
+        # two Forms 1098 with different amounts, itemizing
+        two1098 = {'number_1098': '2', 'itemize': 'yes', '1098:0.box_1': '4100.00', '1098:1.box_1': '999.00', '1098:0.box_6': '0.00', '1098:1.box_6': '120.50',
+                   'loan_limitations': 'no', 'charitable_other_than_cash_check': '0.00', 'principal_abode_us': 'yes', 'general_sales_tax': 'no',
+                   'state_local_real_estate_taxes': '9000.00', 'charitable_cash_check': '6000.00'}
+        out.append((y, ['1040'], 9004, dict(base, status='Single', wages=90000, itemize=True, overrides=two1098)))
+        # two pension (non-IRA) Forms 1099-R with different taxable amounts
+        pens = {'number_1099-r': '2', '1099-r:0.box_1': '7000.00', '1099-r:0.box_2a': '6500.00', '1099-r:1.box_1': '30000.00', '1099-r:1.box_2a': '24000.00',
+                'box_7_ira_sep_simple': 'no', 'box_2b_taxable_not_determined': 'no', 'pensions_annuities_adjustments': 'no', 'pensions_annuities': 'no',
+                '1099-r:0.box_4': '0.00', '1099-r:1.box_4': '300.00', 'principal_abode_us': 'yes'}
+        out.append((y, ['1040'], 9005, dict(base, status='Single', wages=40000, overrides=pens)))
+        # an IRA whose basis exceeds its value (Form 8606 ratio capped at 1)
+        ira2 = dict(ira, traditional_basis='20000.00', year_end_value_non_roth='2000.00', nondeductible_contributions='0.00', net_converted='0.00')
+        ira2['distributions_%d' % y] = '8000.00'
+        ira2['1099-r:0.box_1'] = '8000.00'
+        ira2['1099-r:0.box_2a'] = '8000.00'
+        out.append((y, ['1040'], 9006, dict(base, status='Single', wages=60000, overrides=ira2)))
+        # child tax credit in its phase-out range (head of household, two children, AGI just above 200,000)
+        ctc = {'number_1099-int': '1', '1099-int:0.box_1': '1300.00', 'principal_abode_us': 'yes', 'number_under_18': '2', 'number_under_6': '0'}
+        out.append((y, ['1040'], 9007, dict(base, status='HeadOfHousehold', wages=199000 / 1.0, n_dep=2, n_u17=2, overrides=dict(ctc, **{'w-2:0.box_1': '199000.00'}))))
     return out
 
 
